@@ -375,3 +375,23 @@ void h_ctor_roundtrip(void)
   VERIF_CANARY;
 }
 #endif
+
+/* ------------------------------------------------------------ makeFeasible's cursor: mark-all-inactive clears every flag AND rewinds, so that afterwards
+ * "remaining" is true exactly as often as there are sub-constraints, each marking advancing by one.  BOUNDED: up to 3 sub-constraints. */
+#if defined(JOB_cursor)
+void verif_cursor_scene(unsigned n, unsigned long cursor, int s0, int s1, int s2); void w_mark_all_inactive(void); int w_remaining(void); void w_mark_curr(int sat);
+unsigned long verif_cursor(void); int verif_satisfied(unsigned k);
+void h_cursor(void)
+{
+  unsigned n; unsigned long cur; int s[3];
+  __CPROVER_assume(n <= 3 && cur <= n);
+  verif_cursor_scene(n, cur, s[0], s[1], s[2]);
+  w_mark_all_inactive();
+  __CPROVER_assert(verif_cursor() == 0, "SPEC markAllSubConstraintsAsInactive rewinds the cursor");
+  for (unsigned k = 0; k < 3; ++k) if (k < n) __CPROVER_assert(!verif_satisfied(k), "SPEC markAllSubConstraintsAsInactive clears every sub-constraint's flag");
+  unsigned seen = 0;
+  for (unsigned k = 0; k < 4; ++k) if (w_remaining()) { int sat; w_mark_curr(sat); seen++; }
+  __CPROVER_assert(seen == n && !w_remaining(), "SPEC after rewinding, makeFeasible's loop sees each sub-constraint exactly once");
+  VERIF_CANARY;
+}
+#endif
